@@ -28,13 +28,13 @@ import (
 type callSink func(op string, err error, rec any, site string, text []byte, texts map[string][]byte)
 
 type project struct {
-	Root  string            `json:"root"`
-	Types map[string]string `json:"types,omitempty"` // name -> text (jschema)
-	Regex map[string]string `json:"regex,omitempty"` // name -> regex schema text
-	Enums map[string]string `json:"enums,omitempty"` // name -> enum rule text
-	Order []string          `json:"order,omitempty"` // registration order of Types (default: sorted)
-	Self  string            `json:"self,omitempty"`  // when set: the root file is named so and the root is registered as this type too
-	RuleOrder []string      `json:"ruleOrder,omitempty"` // registration order of Enums (default: sorted)
+	Root      string            `json:"root"`
+	Types     map[string]string `json:"types,omitempty"`     // name -> text (jschema)
+	Regex     map[string]string `json:"regex,omitempty"`     // name -> regex schema text
+	Enums     map[string]string `json:"enums,omitempty"`     // name -> enum rule text
+	Order     []string          `json:"order,omitempty"`     // registration order of Types (default: sorted)
+	Self      string            `json:"self,omitempty"`      // when set: the root file is named so and the root is registered as this type too
+	RuleOrder []string          `json:"ruleOrder,omitempty"` // registration order of Enums (default: sorted)
 }
 
 func call(sink callSink, op string, text []byte, texts map[string][]byte, f func() error) (ok bool) {
